@@ -1388,6 +1388,63 @@ class SqlSite:
         )
 
 
+def _loop_expanded_texts(arg, module):
+    """SQL text that is a constant template with one field filled by the variable of an enclosing `for` over a literal
+    tuple / list of strings (`T.format(v)`, `T % v`, `T % (v,)`, f-string, `A + v + B`): the texts of all cycles, else None."""
+    var = None
+    template = None
+    if isinstance(arg, ast.Call) and isinstance(arg.func, ast.Attribute) and arg.func.attr == "format" and len(arg.args) == 1 and not arg.keywords \
+            and isinstance(arg.args[0], ast.Name):
+        t = const_str(arg.func.value, module)
+        if t is not None and (t.count("{}") == 1 or t.count("{0}") >= 1) and "{" not in t.replace("{}", "").replace("{0}", ""):
+            var, template = arg.args[0].id, t.replace("{0}", "{}")
+    elif isinstance(arg, ast.BinOp) and isinstance(arg.op, ast.Mod):
+        t = const_str(arg.left, module)
+        r = arg.right.elts[0] if isinstance(arg.right, ast.Tuple) and len(arg.right.elts) == 1 else arg.right
+        if t is not None and t.count("%s") == 1 and t.count("%") == 1 and isinstance(r, ast.Name):
+            var, template = r.id, t.replace("%s", "{}")
+    elif isinstance(arg, ast.JoinedStr):
+        fields = [v for v in arg.values if isinstance(v, ast.FormattedValue)]
+        if len(fields) == 1 and isinstance(fields[0].value, ast.Name) and fields[0].format_spec is None and fields[0].conversion == -1 \
+                and all(isinstance(v, ast.FormattedValue) or (isinstance(v, ast.Constant) and "{" not in v.value and "}" not in v.value) for v in arg.values):
+            var = fields[0].value.id
+            template = "".join("{}" if isinstance(v, ast.FormattedValue) else v.value for v in arg.values)
+    elif isinstance(arg, ast.BinOp) and isinstance(arg.op, ast.Add):
+        parts = []
+        def flat(n):
+            if isinstance(n, ast.BinOp) and isinstance(n.op, ast.Add):
+                flat(n.left)
+                flat(n.right)
+            else:
+                parts.append(n)
+        flat(arg)
+        names = [p_ for p_ in parts if isinstance(p_, ast.Name) and const_str(p_, module) is None]
+        if len(names) == 1 and all(p_ is names[0] or const_str(p_, module) is not None for p_ in parts):
+            var = names[0].id
+            template = "".join("{}" if p_ is names[0] else const_str(p_, module).replace("{", "{{").replace("}", "}}") for p_ in parts)
+    if var is None:
+        return None
+    loop = getattr(arg, "parent", None)
+    while loop is not None and not (isinstance(loop, ast.For) and isinstance(loop.target, ast.Name) and loop.target.id == var):
+        if isinstance(loop, (ast.FunctionDef, ast.AsyncFunctionDef, ast.Lambda)):
+            return None
+        loop = getattr(loop, "parent", None)
+    if loop is None:
+        return None
+    it = loop.iter
+    if isinstance(it, ast.Name) and module is not None and module.constants.get(it.id) is not None:
+        it = module.constants.get(it.id)
+    if not (isinstance(it, (ast.Tuple, ast.List)) and it.elts and all(isinstance(e, ast.Constant) and isinstance(e.value, str) for e in it.elts)):
+        return None
+    # the variable is not rebound inside the loop
+    if any(isinstance(x, ast.Name) and x.id == var and isinstance(x.ctx, ast.Store) for st in loop.body for x in ast.walk(st)):
+        return None
+    try:
+        return [template.format(e.value) for e in it.elts]
+    except Exception:
+        return None
+
+
 def sql_sites(repo, schema_text=None, modules=None):
     """All execute/executemany/executescript call sites."""
     sites = []
@@ -1408,9 +1465,17 @@ def sql_sites(repo, schema_text=None, modules=None):
                     sts = []
                     if txt is not None:
                         sts = parse_sql(txt)
-                    elif node.func.attr == "executescript":
-                        # schema_file.read() idiom: resolved by caller
-                        sts = []
+                    else:
+                        # text built from a loop variable over a constant tuple of names:
+                        #   for t in ("a", "b"): cur.execute("DELETE FROM {}".format(t))   -> the statements of every cycle
+                        texts = _loop_expanded_texts(node.args[0], m)
+                        if texts:
+                            try:
+                                for t_ in texts:
+                                    sts.extend(parse_sql(t_))
+                                txt = ";\n".join(texts)
+                            except Exception:
+                                sts, txt = [], None
                     params = node.args[1] if len(node.args) > 1 else None
                     sites.append(
                         SqlSite(f, node, node.func.attr, txt, sts, params)
